@@ -113,6 +113,21 @@ func writeOverlayJSON(pkgRel string) (string, func(), error) {
 		}
 		return nil
 	})
+	cov, err := cutOverlays()
+	if err != nil {
+		cleanup()
+		return "", nil, err
+	}
+	n := 0
+	for path, content := range cov {
+		n++
+		f := filepath.Join(tmp, fmt.Sprintf("cut%d_%s", n, filepath.Base(path)))
+		if err := os.WriteFile(f, content, 0o644); err != nil {
+			cleanup()
+			return "", nil, err
+		}
+		repl[path] = f
+	}
 	pkgName, err := packageName(pkgRel)
 	if err != nil {
 		cleanup()
